@@ -156,6 +156,13 @@ def run(tier, seed, broken_proof=False):
             cfg = cfgs[ci % len(cfgs)]
             c = dict(c, queries=c["queries"][:3], id="%s@%s" % (c["id"], ops.cfg_name(cfg)))
             jobs.append((c, cfg))
+    # fixed sessions: the bases with finite layers below a non-empty infinity layer under every z3 / rc2 configuration of W and lex
+    # (state that a timed-out recursion leaves behind on the manager must show whatever the generator draws)
+    for c0 in ops.corpus_cases(True):
+        if c0["id"].startswith(("corp-w-mixed", "corp-birds", "corp-lextie")):
+            for cfg in (("lex_inf", "z3"), ("system-w", "z3"), ("lex_inf", "rc2"), ("system-w", "rc2")):
+                c = dict(c0, queries=c0["queries"][:3], id="fx-%s@%s" % (c0["id"], ops.cfg_name(cfg)))
+                jobs.append((c, cfg))
     import concurrent.futures
     import multiprocessing as mp
     res = []
